@@ -86,6 +86,17 @@ pub enum Cold {
   Other,
   /// the main input is cold
   Main,
+  /// the other / main input is `from_iter` (a source that consults
+  /// `is_finished()` before every item); only for scripts "items, complete"
+  OtherIter,
+  MainIter,
+}
+
+fn iter_src(script: &[N]) -> Src {
+  Src::Iter(script.iter().filter_map(|n| if let N::Next(v) = n { Some(v.clone()) } else { None }).collect())
+}
+fn iterable(script: &[N]) -> bool {
+  script.last() == Some(&N::Complete) && script.iter().filter(|n| n.is_terminal()).count() == 1
 }
 
 pub fn observe(flavor: Flavor, op: &str, tl: &[(usize, N)], cold: Cold, a: &[N], b: &[N]) -> Result<Vec<N>, String> {
@@ -95,11 +106,13 @@ pub fn observe(flavor: Flavor, op: &str, tl: &[(usize, N)], cold: Cold, a: &[N],
       Cold::None => Chain::new(Src::Hot(0), vec![mk_op(op, Chain::hot(1))]),
       Cold::Other => Chain::new(Src::Hot(0), vec![mk_op(op, Chain::new(Src::CreateSync(b.to_vec()), vec![]))]),
       Cold::Main => Chain::new(Src::CreateSync(a.to_vec()), vec![mk_op(op, Chain::hot(1))]),
+      Cold::OtherIter => Chain::new(Src::Hot(0), vec![mk_op(op, Chain::new(iter_src(b), vec![]))]),
+      Cold::MainIter => Chain::new(iter_src(a), vec![mk_op(op, Chain::hot(1))]),
     };
     w.subscribe(&chain, 1);
     for (who, n) in tl {
       match (cold, who) {
-        (Cold::Other, 1) | (Cold::Main, 0) => {}
+        (Cold::Other, 1) | (Cold::Main, 0) | (Cold::OtherIter, 1) | (Cold::MainIter, 0) => {}
         _ => w.inject(*who, n.clone()),
       }
     }
@@ -237,13 +250,19 @@ pub fn run(cfg: &Cfg, rep: &mut Report) {
                 }
                 if !post {
                   // one cold input: its events all precede the hot ones
-                  for cold in [Cold::Other, Cold::Main] {
+                  for cold in [Cold::Other, Cold::Main, Cold::OtherIter, Cold::MainIter] {
+                    if (cold == Cold::OtherIter && !iterable(&b)) || (cold == Cold::MainIter && !iterable(&a)) {
+                      continue;
+                    }
                     idx += 1;
                     if cfg.mine(idx) {
                       let picks: Vec<usize> = match cold {
-                        Cold::Other => vec![1; b.len()].into_iter().chain(vec![0; a.len()]).collect(),
+                        Cold::Other | Cold::OtherIter => vec![1; b.len()].into_iter().chain(vec![0; a.len()]).collect(),
                         _ => vec![0; a.len()].into_iter().chain(vec![1; b.len()]).collect(),
                       };
+                      if matches!(cold, Cold::OtherIter | Cold::MainIter) {
+                        rep.count("cases_with_a_from_iter_input", 1);
+                      }
                       case(cfg, rep, &format!("enum:{}", idx), flavor, op, &a, &b, &picks, cold);
                     }
                   }
